@@ -158,6 +158,12 @@ def run(an: Analysis, rep):
     from .common import purity
     rep.run(purity, an, rep, "R02.P", ["from_code"])
     rep.run(r02f, an, rep)
+    from . import c04 as _c04w
+    from .common import SharedRules as _SR2w, assert_guard_rule as _agr, identity_rule as _idr
+    rep.run(_c04w.r04f, an, _SR2w(rep, "R02.W", "the function that builds the data from a code object, folded over witness code objects (shared with C04's R04.W): the constant an instruction loads "
+                                                "is co_consts[operand] itself, type- and bit-exact (a str with a lone surrogate, bytes, -0.0, nested tuples)"))
+    rep.run(_agr, an, rep, "R02.A", ["from_code"])
+    rep.run(_idr, an, rep, "R02.I", ["from_code"])
     interps = []
     for V in VERSIONS:
         cfg = vname(V)
@@ -903,6 +909,7 @@ def _decoder_witnesses(V):
         ("one cell and two free variables", [("LOAD_CLOSURE", 0), ("LOAD_DEREF", 1), ("LOAD_DEREF", 2), ("LOAD_DEREF", 0), ("RETURN_VALUE", 0)], (), (), ("f0", "f1"), ("c",), ()),
         # a class body that uses __class__ inside a function with a local __class__: CPython lists the name in both tables, the operand's position decides
         ("one name that is both a cell and a free variable", [("LOAD_CLOSURE", 0), ("LOAD_DEREF", 1), ("LOAD_DEREF", 0), ("LOAD_DEREF", 2), ("RETURN_VALUE", 0)], (), (), ("__class__", "x"), ("__class__",), ()),
+        ("no instructions at all, tables that are not empty", [], ("a",), ("v",), (), ("c",), (1, "s")),
         ("two cells and one free variable", [("LOAD_DEREF", 2), ("LOAD_DEREF", 1), ("LOAD_DEREF", 0), ("RETURN_VALUE", 0)], (), (), ("f0",), ("c0", "c1"), ()),
         ("tables met out of order, entries never met", [("LOAD_NAME", 1), ("LOAD_CONST", 2), ("LOAD_NAME", 0), ("LOAD_CONST", 0), ("LOAD_FAST", 1), ("LOAD_NAME", 1), ("RETURN_VALUE", 0)],
          ("a", "b", "never"), ("v0", "v1"), (), (), (None, 1.5, "s")),
@@ -1003,7 +1010,7 @@ def _decode_bad(an, g, V, WV):
             for b in blocks:
                 begins.append(exp[k][0] if k < len(exp) else None)
                 k += len(b)
-            if begins != order or any(len(b) == 0 for b in blocks):
+            if begins != (order if exp else []) or any(len(b) == 0 for b in blocks):
                 why = f"blocks begin at offsets {begins}, the jump targets (and 0) are {order}"
             for ins, (first, name, a) in zip(flat, exp):
                 if why:
